@@ -173,7 +173,7 @@ package gzip
 //@   loop 3 invariant c != nil && forall(k, 0, len(configs), skips(configs[k]))
 //@   loop 4 invariant c != nil && forall(k, 0, len(configs), skips(configs[k]))
 
-//@ unit setup_sweep props=C11 files=setup.go nilchecks=on nonnil_params=on dispenser_variants=on exclude=`gzip\.gzipParse$` filter=`.`
+//@ unit setup_sweep props=C11,C08 files=setup.go nilchecks=on nonnil_params=on dispenser_variants=on exclude=`gzip\.gzipParse$` filter=`.`
 //@ // package-level map created by its initialiser and never reassigned
 //@ invariant writerPool != nil
 //@ // Safety sweep of this directive's setup code: index, slice, division, nil-map store, nil dereference, explicit panic,
